@@ -168,6 +168,29 @@ End GSx.
 Definition remap (n : nat) (mapping : list nat) (t : list step) : list step :=
   map (fun s => (nth (fst s) mapping O, scatter mapping (snd s) (repeat None n))) t.
 
+(* ------------------------------------------ RegressionTreeBasedAL (random / diversity) *)
+(* skactiveml/pool/_regression_tree_based_al.py, methods "random" and "diversity", AS WRITTEN: the leaves that hold candidates are
+   visited in ascending order; leaf l is given n_k[l] steps; in every step a FRESH row of -inf gets the leaf's value (1 resp. the
+   distance to the nearest labeled sample of the leaf) at the leaf's candidates and NaN at the earlier picks, the pick is
+   rand_argmax of that row.  The schedule (leaf per step) is the numeric layer's business: its length is the number of returned
+   indices, which is smaller than batch_size whenever a leaf with a positive quota holds no candidate (recorded finding); when a
+   leaf's quota exceeds its candidates the maximum of the row is -inf and some other candidate is taken (recorded finding). *)
+Section RegTree.
+  Variable m : nat.
+  Variable leaf_of : nat -> nat.
+  Variable value : nat -> Z.
+  Variable neg : Z.
+
+  Definition rt_row (leaf : nat) (prev : list nat) : list val :=
+    map (fun j => if memb j prev then None else if Nat.eqb (leaf_of j) leaf then Some (value j) else Some neg) (seq 0 m).
+
+  Definition rt_state := (list nat * list nat)%type.      (* leaves of the remaining steps, picks so far *)
+
+  Definition rt_loop (sched : list nat) (noises : list (list Z)) : list step :=
+    sel_loop rt_state (fun s => rt_row (hd O (fst s)) (snd s)) (fun s p => (tl (fst s), snd s ++ [p]))
+             (length sched) (sched, []) noises.
+End RegTree.
+
 (* ------------------------------------------------------------------ BatchBALD *)
 (* skactiveml/pool/_bald.py, BatchBALD (greedy_selection=False) AS WRITTEN (recorded finding: duplicates under ties):
    batch_bald runs a masked oracle-row loop in candidate space whose picks are made by
